@@ -54,7 +54,7 @@ def apply(F):
     F.hoist(K, r'fn derive_keypair\b', 'derive_keypair_body', '$kem_name', trait='KemTrait')
     F.contract(K, r'fn derive_keypair\b', ret='r', attrs=['#[verifier::external_body]'], discharged_by='N7 delegation to the verified derive_keypair_body')
     F.contract(M, r'fn derive_keypair_body\b', ret='r', clauses='''
-                ensures /*@C03 C02*/ (r.0.ser(), r.1.ser()) == <$kem_name as KemTrait>::k_derive(ikm@),
+                ensures /*@C03 C02 ~C01*/ (r.0.ser(), r.1.ser()) == <$kem_name as KemTrait>::k_derive(ikm@),
                         /*@C03*/ r.1.ser() == <$kem_name as KemTrait>::k_pk_of(r.0.ser()),
 ''')
     F.wrap(M, r'fn derive_keypair_body\b')
